@@ -40,6 +40,8 @@ FAMILIES = {
     "R": [("s1", "a", 1.0, "b", 1.0, "u1"), ("s1", "a", 1.0, "b", 1.0, "u1"), ("s1", "a", 1.0, "", 0.0, "u1"),
           ("s1", "a", 1.0, "", 0.0, "u1"), ("s2", "a", 1.0, "b", 1.0, "u2"), ("s1", "a", 1.0, "b", 1.0, "u2"),
           ("s2", "c", 1.0, "b", 1.0, "obs")],
+    # an observed plate and ONE unobserved plate (three experiments of one sample): nothing to even out against
+    "S1": [("s2", "a", 1.0, "b", 1.0, "obs"), ("s1", "a", 1.0, "b", 1.0, "u1"), ("s1", "a", 1.0, "c", 1.0, "u1"), ("s1", "b", 1.0, "c", 1.0, "u1")],
     # five samples, every pair of four drugs for each: more samples than treatment groups in the pairwise design
     "P": [("s%d" % (i // 6), x, 1.0, y, 1.0, "u1") for i, (x, y) in
           enumerate([(x, y) for _ in range(5) for x, y in (("a", "b"), ("a", "c"), ("a", "d"), ("b", "c"), ("b", "d"), ("c", "d"))])],
@@ -98,8 +100,12 @@ def family(fam):
     return FAMILIES[fam]
 
 
+NAN_ROW = [None]  # set by the operation harness for configurations in which one not yet observed outcome is NaN
+
+
 def build(ctx, fam, R, all_observed=False, all_unobserved=False):
     rows = family(fam)[:R]
+    nan_row = NAN_ROW[0]
     if R > 24:
         # large screens: concrete pairwise distinct tags (the operations only move observation values around)
         obs = [0.001 * (i + 1) for i in range(R)]
@@ -114,13 +120,22 @@ def build(ctx, fam, R, all_observed=False, all_unobserved=False):
         mask = [False] * R
     else:
         mask = [r[5].startswith("obs") for r in rows]
+    if nan_row is not None:
+        # a stored outcome that is not a number on a plate that has not been run yet (the last such row): a legal float
+        cand = [i for i in range(R) if not mask[i]]
+        if cand:
+            obs[cand[min(nan_row, len(cand) - 1)]] = float("nan")
     screen = concrete_screen(ctx, rows, observations=obs, mask=mask)
     return screen, rows, obs, mask
 
 
 def tag_index(ctx, v, tags):
     """index of the input row whose (unforgeable) observation tag this value is, or None"""
+    if isinstance(v, float) and v != v:
+        return next((j for j, t in enumerate(tags) if isinstance(t, float) and t != t), None)
     for j, t in enumerate(tags):
+        if isinstance(t, float) and t != t:
+            continue
         if ctx.symbolic and isinstance(t, E.SymReal):
             if isinstance(v, E.SymReal) and z3.eq(z3.simplify(v.e), z3.simplify(t.e)):
                 return j
